@@ -163,6 +163,9 @@ func (state *State) ClearInSync() {
 
 	state.wasInSync = false
 	state.isInSync = false
+	// What the peer confirmed before is out of date too, so in sync is only declared again after the
+	// next headers poll has been answered.
+	state.pendingSync = false
 }
 
 func (state *State) WasInSync() bool {
